@@ -307,6 +307,7 @@ def gen_case(rng, mode=None, with_dask=None, flavour=None, max_runs=16):
         "mode": mode,
         "with_dask": rng.random() < 0.4 if with_dask is None else with_dask,
         "inherit": rng.random() < 0.5,
+        "construction": rng.choice(["python", "python", "yaml"]),
         "flavour": flavour,
         "models": models,
         "fields": sorted({p["key"][len("detector."):] for p in params if p["key"].startswith("detector.")}
@@ -384,6 +385,12 @@ def write_table(case, folder):
 def build_observation(case, folder, with_dask=None, outputs=None, pipeline_seed=None):
     from pyxel.observation import Observation, ParameterValues
 
+    extra_kw = {}
+    if case.get("readout_times"):
+        from pyxel.exposure import Readout
+
+        extra_kw["readout"] = Readout(times=list(case["readout_times"]), non_destructive=bool(case.get("non_destructive")))
+
     pvs = [ParameterValues(key=p["key"], values=json.loads(json.dumps(p["decl"])), enabled=p["enabled"])
            for p in case["params"]]
     kw = {}
@@ -392,7 +399,35 @@ def build_observation(case, folder, with_dask=None, outputs=None, pipeline_seed=
         kw = {"from_file": path, "column_range": col_range}
     return Observation(parameters=pvs, mode=case["mode"],
                        with_dask=case["with_dask"] if with_dask is None else with_dask,
-                       outputs=outputs, pipeline_seed=pipeline_seed, **kw)
+                       outputs=outputs, pipeline_seed=pipeline_seed, **kw, **extra_kw)
+
+
+def build_from_yaml(case, folder, with_dask=None, delay_ms=0.0, extra=None):
+    """the same configuration through the YAML entry point (`pyxel.configuration.loads`): observation with its
+    parameters (key / values / enabled), detector and pipeline; returns (observation, detector, pipeline)"""
+    import yaml
+    from pyxel.configuration import loads
+
+    obs = {"mode": case["mode"], "with_dask": case["with_dask"] if with_dask is None else with_dask,
+           "parameters": [{"key": p["key"], "values": json.loads(json.dumps(p["decl"])), "enabled": p["enabled"]}
+                          for p in case["params"]]}
+    if case["mode"] == "custom":
+        path, col_range = write_table(case, folder)
+        obs["from_file"], obs["column_range"] = path, list(col_range)
+    doc = {
+        "observation": obs,
+        "ccd_detector": {
+            "geometry": {"row": 3, "col": 4, "total_thickness": 40.0, "pixel_vert_size": 10.0, "pixel_horz_size": 10.0},
+            "environment": {"temperature": 200.0},
+            "characteristics": {"quantum_efficiency": 0.9, "charge_to_volt_conversion": 1e-6, "pre_amplification": 100.0,
+                                "full_well_capacity": 100000, "adc_bit_resolution": 16, "adc_voltage_range": [0.0, 10.0]},
+        },
+        "pipeline": {g: [{"name": m["name"], "func": m["func"], "enabled": True, "arguments": m["arguments"]} for m in ms]
+                     for g, ms in pipeline_groups(case, delay_ms, extra).items()},
+    }
+    cfg = loads(yaml.safe_dump(doc, sort_keys=False))
+    apply_det_overrides(cfg.detector, case)
+    return cfg.observation, cfg.detector, cfg.pipeline
 
 
 def default_of(case, key, _cache={}):
@@ -488,7 +523,7 @@ def find_bucket(dt):
     raise common.InfraError("no pixel bucket in the result")
 
 
-def extract_entries(ds, n_slots, with_image=False):
+def extract_entries(ds, n_slots, with_image=False, all_times=False):
     """one entry per element of the parameter grid of the result: labels (every coordinate that varies with
     the parameter dimensions, canonical) and the first `n_slots` pixels of that run"""
     import numpy as np
@@ -508,12 +543,17 @@ def extract_entries(ds, n_slots, with_image=False):
     for idx in itertools.product(*[range(px.sizes[d]) for d in pdims]):
         sel = dict(zip(pdims, idx))
         data = np.asarray(px.isel(sel).values)
-        data = data.reshape(data.shape[0], -1)[0] if data.ndim == 3 else data.reshape(-1)
+        if all_times and data.ndim == 3:  # every readout step: the first n_slots pixels of each
+            data = data.reshape(data.shape[0], -1)[:, :n_slots].reshape(-1)
+            n_take = len(data)
+        else:
+            data = data.reshape(data.shape[0], -1)[0] if data.ndim == 3 else data.reshape(-1)
+            n_take = n_slots
         labels = {}
         for cname, c in coords.items():
             sub = c.isel({d: i for d, i in sel.items() if d in c.dims}).values
             labels[cname] = cv(sub.tolist() if isinstance(sub, np.ndarray) else sub)
-        e = {"labels": labels, "data": [num(x) for x in data[:n_slots]]}
+        e = {"labels": labels, "data": [num(x) for x in data[:n_take]]}
         if with_image and "image" in ds:
             im = np.asarray(ds["image"].isel(sel).values)
             e["image"] = num(im.reshape(-1)[0])
@@ -551,7 +591,7 @@ def exec_log(case, extra_slots=0):
 
 
 def run_impl(case, scheduler="synchronous", num_workers=None, delay_ms=0.0, with_dask=None, outputs_dir=None,
-             pipeline_seed=None, extra=None, extra_slots=0, with_image=False):
+             pipeline_seed=None, extra=None, extra_slots=0, with_image=False, all_times=False):
     """run the real Observation; returns {"dims", "entries", "exec"} or {"error", "msg"}"""
     import dask
     import obsprobes
@@ -563,20 +603,23 @@ def run_impl(case, scheduler="synchronous", num_workers=None, delay_ms=0.0, with
         os.chdir(tmp)
         obsprobes.reset()
         try:
-            det, pipe = build_objects(case, delay_ms, extra)
             outputs = None
             if outputs_dir is not None:
                 from pyxel.outputs import ObservationOutputs
 
                 outputs = ObservationOutputs(output_folder=outputs_dir, save_data_to_file=[{"detector.pixel.array": ["npy"]}])
-            obs = build_observation(case, tmp, with_dask=with_dask, outputs=outputs, pipeline_seed=pipeline_seed)
+            if case.get("construction") == "yaml" and outputs is None and pipeline_seed is None:
+                obs, det, pipe = build_from_yaml(case, tmp, with_dask=with_dask, delay_ms=delay_ms, extra=extra)
+            else:
+                det, pipe = build_objects(case, delay_ms, extra)
+                obs = build_observation(case, tmp, with_dask=with_dask, outputs=outputs, pipeline_seed=pipeline_seed)
             cfg = {"scheduler": scheduler}
             if num_workers:
                 cfg["num_workers"] = num_workers
             with dask.config.set(**cfg):
                 dt = pyxel.run_mode(mode=obs, detector=det, pipeline=pipe,
                                     with_inherited_coords=bool(case.get("inherit")) or obs.with_dask)
-                out = extract_entries(find_bucket(dt), nslots(case) + extra_slots, with_image)
+                out = extract_entries(find_bucket(dt), nslots(case) + extra_slots, with_image, all_times)
             out["exec"] = exec_log(case, extra_slots)
             if outputs is not None:
                 out["output_dir"] = str(outputs.current_output_folder)
@@ -849,6 +892,15 @@ def body(ck: common.Check):
         for wd in (False, True):
             for flav in ("plain", "fine", "vectors", "two_models_same_arg", "same_model_two_groups", "field_vs_arg"):
                 cases.append(("directed", gen_case(rng, mode=mode, with_dask=wd, flavour=flav, max_runs=8)))
+    # the YAML entry point, with a disabled parameter in every case (all modes, both paths)
+    for mode in ("product", "sequential", "custom"):
+        for wd in (False, True):
+            for _ in range(50):
+                c = gen_case(rng, mode=mode, with_dask=wd, flavour="plain", max_runs=8)
+                if any(not p["enabled"] for p in c["params"]):
+                    break
+            c["construction"] = "yaml"
+            cases.append(("directed", c))
     # numpy expressions that expand to more values than their text has characters (product and sequential mode, both paths)
     for mode, wd in (("product", False), ("product", False), ("product", True), ("sequential", False)):
         cases.append(("directed", gen_case(rng, mode=mode, with_dask=wd, flavour="long_expr")))
@@ -867,6 +919,7 @@ def body(ck: common.Check):
         ck.count(f"mode={case['mode']}")
         ck.count(f"path={'dask' if parallel else 'sequential'}")
         ck.count(f"flavour={case['flavour']}")
+        ck.count(f"construction={case.get('construction', 'python')}")
         ck.count("runs", nr)
         ck.count("params_disabled", sum(1 for p in case["params"] if not p["enabled"]))
         ck.count("params_vector", sum(1 for p in case["params"] if p.get("multi") or p.get("width")))
@@ -910,7 +963,7 @@ def body(ck: common.Check):
                "mixed/string lists, numpy expressions (integer / dyadic with independently computed expectations; tiny magnitudes, long "
                "mantissas and fractional steps, and expressions expanding to 20-40 values — more than their text has characters — "
                "evaluated with numpy in the harness, compared bit for bit), 1-D and 2-D vector values, "
-               "enabled/disabled mix; product / sequential / custom (npy and txt tables, extra unused columns); sequential "
+               "enabled/disabled mix; built through the Python API or from YAML (pyxel.configuration.loads); product / sequential / custom (npy and txt tables, extra unused columns); sequential "
                "path and dask path (synchronous scheduler); collision flavours: two models sharing an argument name, one "
                "model name in two groups, detector field vs model argument; non-trivial = at least two runs; distinct by "
                "canonical JSON; history stream: one Observation object used for 2-3 successive run_mode calls on reconfigured "
